@@ -3,7 +3,7 @@ From Coq Require Import List ZArith String.
 Local Close Scope string_scope.
 Require Import Avro.Model.Base Avro.Model.Prim Avro.Model.Schema Avro.Model.Container.
 Require Import Avro.Model.Writer.
-Require Import Avro.Proofs.ContainerP Avro.Proofs.FileP.
+Require Import Avro.Proofs.ContainerP Avro.Proofs.FileP Avro.Proofs.FuelP.
 Import ListNotations.
 Open Scope list_scope.
 Open Scope Z_scope.
@@ -100,6 +100,23 @@ Theorem C07_header_roundtrip : forall schema_json codec_name sync rest,
   = Some ({| h_meta := written_meta schema_json codec_name; h_sync := sync |}, rest).
 Proof. exact read_header_written. Qed.
 Print Assumptions C07_header_roundtrip.
+
+(* The model's block loop runs on fuel and renders "out of fuel" as an error.
+   That never shows in what the theorems above state: with more fuel than bytes
+   the result is the same for every amount of fuel (each block consumes at least
+   one byte), and the record loop of a block is independent of its fuel beyond the
+   declared count. *)
+Theorem C07_outcome_independent_of_fuel : forall decompress read_record cb sync f1 f2 idx bs,
+  (length bs < f1)%nat -> (length bs < f2)%nat ->
+  read_blocks decompress read_record cb f1 sync idx bs = read_blocks decompress read_record cb f2 sync idx bs.
+Proof. exact read_blocks_fuel_independent. Qed.
+Print Assumptions C07_outcome_independent_of_fuel.
+
+Theorem C07_record_loop_independent_of_fuel : forall read_record cb f1 f2 n idx bs,
+  (Z.to_nat n < f1)%nat -> (Z.to_nat n < f2)%nat ->
+  read_records read_record cb f1 n idx bs = read_records read_record cb f2 n idx bs.
+Proof. exact (read_records_fuel_independent (fun x => Some x)). Qed.
+Print Assumptions C07_record_loop_independent_of_fuel.
 
 (* non-vacuity: a two-block body with a trivially decoding record format (one byte per record) *)
 Example C07_ex :
